@@ -54,3 +54,6 @@ Definition chk_only_pairs (T : tables) : bool :=
         else false
       else true
     else true) (lic_ids T).
+
+(* C06 round trip: no deprecated id ends in "-or-later" (so a deprecated node gets its '+' only from a '+' token) *)
+Definition chk_deprec_no_orlater (T : tables) : bool := forallb (fun d => negb (ends_orlater d)) (deprec T).
